@@ -45,6 +45,12 @@ Proof.
     + apply IH. intros H. apply Hx. right. exact H.
 Qed.
 
+Ltac names_tac :=
+  unfold ReqEmbed.names in *;
+  repeat first [ progress rewrite map_app in * | progress cbn [map fst] in *
+               | progress rewrite in_app_iff in * | progress cbn [In] in * ];
+  tauto.
+
 Section EmbedProofs.
 Variable P : Type.
 Variable parse_lines : list bytes -> result P.
@@ -159,4 +165,388 @@ Proof.
     specialize (IH2 IH1). rewrite <- app_assoc in IH2. cbn [app] in IH2.
     exact IH2.
 Qed.
+
+(* 2. what holds at every node the search visited (p itself and every package it appended): the walker
+   did not raise, every require string passed the name check, and every required name is in the table *)
+Definition node_ok (final : list bytes) (q : P) : Prop :=
+  snd (walk q) = None /\
+  forall n gl, In (n, gl) (fst (walk q)) -> check_name n = Ok tt /\ In n final.
+
+Lemma Run_nodes :
+  (forall p path pk new, Run p path pk new ->
+     forall final, incl (names (pk ++ new)) final ->
+     node_ok final p /\ Forall (fun e => node_ok final (snd e)) new) /\
+  (forall path rs pk new, RunReqs path rs pk new ->
+     forall final, incl (names (pk ++ new)) final ->
+     (forall n gl, In (n, gl) rs -> check_name n = Ok tt /\ In n final) /\
+     Forall (fun e => node_ok final (snd e)) new).
+Proof.
+  apply Run_both.
+  - intros p path pk new _ IH Hw final Hi. destruct (IH final Hi) as [H1 H2].
+    split; [split; assumption | assumption].
+  - intros path pk final _. split; [intros n gl [] | constructor].
+  - intros path n gl rest pk new Hc Hn _ IH final Hi. destruct (IH final Hi) as [H1 H2].
+    split; [|exact H2]. intros n' gl' [E|Hin]; [|eauto].
+    injection E as <- <-. split; [exact Hc|]. apply Hi. rewrite names_app. apply in_or_app. left. exact Hn.
+  - intros path n gl rest pk qpath q new1 new2 Hc Hn Hl _ IH1 _ IH2 final Hi.
+    assert (Hi1 : incl (names ((pk ++ [(n, q)]) ++ new1)) final).
+    { intros x Hx. apply Hi. names_tac. }
+    assert (Hi2 : incl (names ((pk ++ (n, q) :: new1) ++ new2)) final).
+    { intros x Hx. apply Hi. names_tac. }
+    destruct (IH1 final Hi1) as [Hq H1]. destruct (IH2 final Hi2) as [Hr H2].
+    split.
+    + intros n' gl' [E|Hin]; [|eauto]. injection E as <- <-. split; [exact Hc|].
+      apply Hi. rewrite names_app. apply in_or_app. right. left. reflexivity.
+    + constructor; [exact Hq|]. apply Forall_app. split; assumption.
+Qed.
+
+(* 3. where every appended package comes from: a located, lexed, parsed and (unless the requirer asked
+   for the game loop) stripped file *)
+Definition loaded (e : bytes * P) : Prop :=
+  exists rpath gl qpath, load rpath (fst e) gl = Ok (qpath, snd e).
+
+Lemma Run_loaded :
+  (forall p path pk new, Run p path pk new -> Forall loaded new) /\
+  (forall path rs pk new, RunReqs path rs pk new -> Forall loaded new).
+Proof.
+  apply Run_both; intros; auto.
+  constructor; [exists path, gl, qpath; assumption|]. apply Forall_app. split; assumption.
+Qed.
+
+(* 4. order of first use: every appended package was asked for by the root or by a package appended
+   before it.  [disc avail new]: walking down [new], each name is among the names asked for so far. *)
+Fixpoint disc (avail : list bytes) (new : pkgs) : Prop :=
+  match new with
+  | [] => True
+  | e :: r => In (fst e) avail /\ disc (avail ++ req_names (snd e)) r
+  end.
+
+Lemma disc_mono new : forall a b, incl a b -> disc a new -> disc b new.
+Proof.
+  induction new as [|e r IH]; intros a b Hi H; [exact I|].
+  destruct H as [H1 H2]. split; [apply Hi, H1|].
+  apply (IH (a ++ req_names (snd e))); [|exact H2].
+  intros x Hx. apply in_app_iff in Hx. apply in_app_iff. destruct Hx; [left; auto | right; assumption].
+Qed.
+
+Lemma disc_app x : forall a y, disc a x -> disc a y -> disc a (x ++ y).
+Proof.
+  induction x as [|e r IH]; intros a y Hx Hy; [exact Hy|].
+  destruct Hx as [H1 H2]. split; [exact H1|]. apply IH; [exact H2|].
+  apply (disc_mono y a); [|exact Hy]. intros z Hz. apply in_app_iff. left. exact Hz.
+Qed.
+
+Lemma Run_disc :
+  (forall p path pk new, Run p path pk new -> forall avail, incl (req_names p) avail -> disc avail new) /\
+  (forall path rs pk new, RunReqs path rs pk new -> forall avail, incl (map fst rs) avail -> disc avail new).
+Proof.
+  apply Run_both.
+  - intros p path pk new _ IH _ avail Hi. apply IH. exact Hi.
+  - intros. exact I.
+  - intros path n gl rest pk new _ _ _ IH avail Hi. apply IH. intros x Hx. apply Hi. right. exact Hx.
+  - intros path n gl rest pk qpath q new1 new2 _ _ _ _ IH1 _ IH2 avail Hi.
+    split; [apply Hi; left; reflexivity|]. cbn [snd]. apply disc_app.
+    + apply IH1. intros x Hx. apply in_app_iff. right. exact Hx.
+    + apply IH2. intros x Hx. apply in_app_iff. left. apply Hi. right. exact Hx.
+Qed.
+
+(* 5. all names come from a universe U that contains every name any walk can yield *)
+Section Universe.
+Variable U : list bytes.
+Hypothesis U_load : forall rpath n gl qpath q, load rpath n gl = Ok (qpath, q) -> incl (req_names q) U.
+
+Lemma Run_in_U :
+  (forall p path pk new, Run p path pk new -> incl (req_names p) U -> incl (names new) U) /\
+  (forall path rs pk new, RunReqs path rs pk new -> incl (map fst rs) U -> incl (names new) U).
+Proof.
+  apply Run_both.
+  - intros p path pk new _ IH _ Hi. apply IH, Hi.
+  - intros path pk _ x [].
+  - intros path n gl rest pk new _ _ _ IH Hi. apply IH. intros x Hx. apply Hi. right. exact Hx.
+  - intros path n gl rest pk qpath q new1 new2 _ _ Hl _ IH1 _ IH2 Hi x Hx.
+    assert (Hx' : n = x \/ In x (names new1) \/ In x (names new2)) by names_tac.
+    clear Hx. destruct Hx' as [<-|[Hx|Hx]].
+    + apply Hi. left. reflexivity.
+    + apply IH1; [|exact Hx]. eapply U_load, Hl.
+    + apply IH2; [|exact Hx]. intros y Hy. apply Hi. right. exact Hy.
+Qed.
+
+(* ---------- fuel: more than (|U| - |table|) levels are never needed ---------- *)
+Lemma fold_reqs_fuel (rec rec' : P -> bytes -> pkgs -> result pkgs) k :
+  (forall q qpath pk pk', rec q qpath pk = Ok pk' -> exists new, pk' = pk ++ new /\ Run q qpath pk new) ->
+  (forall q qpath pk, incl (req_names q) U -> NoDup (names pk) -> incl (names pk) U ->
+                      (length U < k + length pk)%nat -> rec' q qpath pk = rec q qpath pk) ->
+  forall path rs pk, incl (map fst rs) U -> NoDup (names pk) -> incl (names pk) U ->
+                     (length U < S k + length pk)%nat ->
+                     fold_reqs rec' path rs pk = fold_reqs rec path rs pk.
+Proof.
+  intros Hsound Hrec path rs. induction rs as [|[n gl] rest IH]; intros pk Hrs Hnd Hin Hlen; [reflexivity|].
+  cbn [ReqEmbed.fold_reqs ReqEmbed.step bind].
+  destruct (check_name n) as [[]|e]; [|reflexivity]. cbn [bind].
+  destruct (mem_name n (names pk)) eqn:Hm.
+  - cbn [bind]. apply IH; auto. intros x Hx. apply Hrs. right. exact Hx.
+  - destruct (load path n gl) as [[qpath q]|e] eqn:Hl; [|reflexivity]. cbn [bind].
+    assert (Hn : ~ In n (names pk)) by (apply mem_name_false, Hm).
+    assert (Hnd1 : NoDup (names (pk ++ [(n, q)]))).
+    { rewrite names_app. apply NoDup_snoc; assumption. }
+    assert (Hin1 : incl (names (pk ++ [(n, q)])) U).
+    { rewrite names_app. intros x Hx. apply in_app_iff in Hx. destruct Hx as [Hx|[<-|[]]]; [auto|].
+      apply Hrs. left. reflexivity. }
+    assert (Hq : incl (req_names q) U) by (eapply U_load, Hl).
+    rewrite (Hrec q qpath (pk ++ [(n, q)]) Hq Hnd1 Hin1).
+    2:{ rewrite app_length. cbn [length]. lia. }
+    destruct (rec q qpath (pk ++ [(n, q)])) as [pk1|e] eqn:Hr; [|reflexivity]. cbn [bind].
+    destruct (Hsound _ _ _ _ Hr) as (new1 & -> & HR).
+    apply IH.
+    + intros x Hx. apply Hrs. right. exact Hx.
+    + apply (proj1 Run_NoDup _ _ _ _ HR Hnd1).
+    + rewrite names_app. intros x Hx. apply in_app_iff in Hx. destruct Hx as [Hx|Hx]; [auto|].
+      apply (proj1 Run_in_U _ _ _ _ HR Hq). exact Hx.
+    + rewrite !app_length. cbn [length]. lia.
+Qed.
+
+Lemma eval_fuel k : forall k' p path pk,
+  (k <= k')%nat -> incl (req_names p) U -> NoDup (names pk) -> incl (names pk) U ->
+  (length U < k + length pk)%nat ->
+  eval k' p path pk = eval k p path pk.
+Proof.
+  induction k as [|k IH]; intros k' p path pk Hk Hp Hnd Hin Hlen.
+  - exfalso. pose proof (NoDup_incl_length Hnd Hin) as H. unfold ReqEmbed.names in *.
+    rewrite map_length in H. cbn in Hlen. lia.
+  - destruct k' as [|k']; [lia|]. cbn [ReqEmbed.eval].
+    rewrite (fold_reqs_fuel (eval k) (eval k') k); auto.
+    + intros q qpath pk0 pk' H. eapply eval_sound, H.
+    + intros q qpath pk0 Hq Hnd0 Hin0 Hlen0. apply IH; auto. lia.
+Qed.
+End Universe.
+
+(* a successful search is never changed by more fuel, whatever the universe *)
+Lemma fold_reqs_more (rec rec' : P -> bytes -> pkgs -> result pkgs) :
+  (forall q qpath pk pk', rec q qpath pk = Ok pk' -> rec' q qpath pk = Ok pk') ->
+  forall path rs pk pk', fold_reqs rec path rs pk = Ok pk' -> fold_reqs rec' path rs pk = Ok pk'.
+Proof.
+  intros Hrec path rs. induction rs as [|[n gl] rest IH]; intros pk pk' H; [exact H|].
+  cbn [ReqEmbed.fold_reqs ReqEmbed.step bind] in *.
+  destruct (check_name n) as [[]|e]; [|discriminate]. cbn [bind] in *.
+  destruct (mem_name n (names pk)).
+  - cbn [bind] in *. apply IH, H.
+  - destruct (load path n gl) as [[qpath q]|e]; [|discriminate]. cbn [bind] in *.
+    destruct (rec q qpath (pk ++ [(n, q)])) as [pk1|e] eqn:Hr; [|discriminate].
+    rewrite (Hrec _ _ _ _ Hr). cbn [bind] in *. apply IH, H.
+Qed.
+
+Lemma eval_more k : forall k' p path pk pk',
+  (k <= k')%nat -> eval k p path pk = Ok pk' -> eval k' p path pk = Ok pk'.
+Proof.
+  induction k as [|k IH]; intros k' p path pk pk' Hk H; [discriminate|].
+  destruct k' as [|k']; [lia|]. cbn [ReqEmbed.eval bind] in *.
+  destruct (fold_reqs (eval k) path (fst (walk p)) pk) as [pk1|e] eqn:Hf; [|discriminate].
+  rewrite (fold_reqs_more (eval k) (eval k')) with (pk' := pk1); [exact H| |exact Hf].
+  intros q qpath pk0 pk0' H0. apply (IH k'); [lia | exact H0].
+Qed.
+
+(* ------------------------------------------------------------------------------------------
+   The build as a whole *)
+Lemma build_lua_inv fuel mp mc r pk :
+  build_lua fuel mp mc = Ok (r, pk) ->
+  exists m, parse_lines (file_lines mc) = Ok m /\ eval fuel m mp [] = Ok pk /\ prepend m pk = Ok r.
+Proof.
+  unfold ReqEmbed.build_lua. intros H.
+  destruct (parse_lines (file_lines mc)) as [m|e]; [|discriminate]. cbn [bind] in H.
+  destruct (eval fuel m mp []) as [pk0|e] eqn:He; [|discriminate]. cbn [bind] in H.
+  destruct (prepend m pk0) as [r0|e] eqn:Hp; [|discriminate]. cbn [bind] in H.
+  injection H as <- <-. exists m. auto.
+Qed.
+
+(* structure: what is handed to the final Lua.from_lines *)
+Lemma build_structure fuel mp mc r pk :
+  build_lua fuel mp mc = Ok (r, pk) ->
+  exists m, parse_lines (file_lines mc) = Ok m /\ eval fuel m mp [] = Ok pk /\
+    match pk with
+    | [] => r = m
+    | _ => parse_lines (preamble_package ++ flat_map block pk ++ preamble_require ++ echo m) = Ok r
+    end.
+Proof.
+  intros H. destruct (build_lua_inv _ _ _ _ _ H) as (m & Hm & He & Hp).
+  exists m. split; [exact Hm|]. split; [exact He|].
+  unfold ReqEmbed.prepend in Hp. destruct pk; [injection Hp as <-; reflexivity | exact Hp].
+Qed.
+
+(* reachability through require(), over the packages of the table *)
+Inductive reachable (m : P) (pk : pkgs) : bytes -> Prop :=
+| reach_main n : In n (req_names m) -> reachable m pk n
+| reach_pkg n0 q n : reachable m pk n0 -> In (n0, q) pk -> In n (req_names q) -> reachable m pk n.
+
+Lemma In_req_names q n : In n (req_names q) <-> exists gl, In (n, gl) (fst (walk q)).
+Proof.
+  unfold req_names. rewrite in_map_iff. split.
+  - intros ([n' gl] & E & H). cbn in E. subst. exists gl. exact H.
+  - intros (gl & H). exists (n, gl). split; [reflexivity | exact H].
+Qed.
+
+Lemma closed_reachable m pk :
+  node_ok (names pk) m -> Forall (fun e => node_ok (names pk) (snd e)) pk ->
+  forall n, reachable m pk n -> In n (names pk).
+Proof.
+  intros Hm Hpk n H. induction H as [n Hn | n0 q n _ _ Hq Hn].
+  - apply In_req_names in Hn. destruct Hn as (gl & Hn). apply (proj2 Hm) in Hn. apply Hn.
+  - rewrite Forall_forall in Hpk. specialize (Hpk _ Hq). cbn in Hpk.
+    apply In_req_names in Hn. destruct Hn as (gl & Hn). apply (proj2 Hpk) in Hn. apply Hn.
+Qed.
+
+Lemma disc_reachable m pk : forall new pre avail,
+  pk = pre ++ new -> (forall n, In n avail -> reachable m pk n) -> disc avail new ->
+  forall e, In e new -> reachable m pk (fst e).
+Proof.
+  induction new as [|e0 r IH]; intros pre avail Hpk Hav Hd e He; [destruct He|].
+  destruct Hd as [H1 H2]. destruct He as [<-|He]; [apply Hav, H1|].
+  apply (IH (pre ++ [e0]) (avail ++ req_names (snd e0))); auto.
+  - rewrite <- app_assoc. exact Hpk.
+  - intros n Hn. apply in_app_iff in Hn. destruct Hn as [Hn|Hn]; [auto|].
+    apply (reach_pkg m pk (fst e0) (snd e0)); [apply Hav, H1 | | exact Hn].
+    rewrite Hpk. apply in_or_app. right. left. destruct e0; reflexivity.
+Qed.
+
+(* once: distinct names, exactly the reachable ones, each after something that asked for it *)
+Lemma build_once fuel mp mc r pk :
+  build_lua fuel mp mc = Ok (r, pk) ->
+  exists m, parse_lines (file_lines mc) = Ok m /\
+    NoDup (names pk) /\
+    (forall n, In n (names pk) <-> reachable m pk n) /\
+    disc (req_names m) pk /\
+    Forall loaded pk.
+Proof.
+  intros H. destruct (build_lua_inv _ _ _ _ _ H) as (m & Hm & He & _).
+  destruct (eval_sound _ _ _ _ _ He) as (new & E & HR). cbn [app] in E. subst new.
+  exists m. split; [exact Hm|].
+  pose proof (proj1 Run_NoDup _ _ _ _ HR (NoDup_nil _)) as Hnd. cbn [app] in Hnd.
+  pose proof (proj1 Run_nodes _ _ _ _ HR (names pk) (incl_refl _)) as [Hnm Hnp].
+  pose proof (proj1 Run_disc _ _ _ _ HR (req_names m) (incl_refl _)) as Hd.
+  pose proof (proj1 Run_loaded _ _ _ _ HR) as Hl.
+  split; [exact Hnd|]. split; [|split; assumption].
+  intros n. split.
+  - intros Hn. unfold ReqEmbed.names in Hn. apply in_map_iff in Hn. destruct Hn as (e & <- & He').
+    apply (disc_reachable m pk pk [] (req_names m)); auto. intros n' Hn'. constructor. exact Hn'.
+  - apply closed_reachable; assumption.
+Qed.
+
+(* errors, stated on success: a build that succeeds met no walker exception (bad require arguments),
+   no refused name and no missing file, in the main program and in every embedded package *)
+Lemma build_no_errors fuel mp mc r pk :
+  build_lua fuel mp mc = Ok (r, pk) ->
+  exists m, parse_lines (file_lines mc) = Ok m /\
+    forall q, (q = m \/ exists n, In (n, q) pk) ->
+      snd (walk q) = None /\
+      forall n gl, In (n, gl) (fst (walk q)) ->
+        check_name n = Ok tt /\
+        exists q' rpath gl' qpath, In (n, q') pk /\ load rpath n gl' = Ok (qpath, q').
+Proof.
+  intros H. destruct (build_lua_inv _ _ _ _ _ H) as (m & Hm & He & _).
+  destruct (eval_sound _ _ _ _ _ He) as (new & E & HR). cbn [app] in E. subst new.
+  exists m. split; [exact Hm|].
+  pose proof (proj1 Run_nodes _ _ _ _ HR (names pk) (incl_refl _)) as [Hnm Hnp].
+  pose proof (proj1 Run_loaded _ _ _ _ HR) as Hl. rewrite Forall_forall in Hl, Hnp.
+  assert (Hq : forall q, (q = m \/ exists n, In (n, q) pk) -> node_ok (names pk) q).
+  { intros q [->|(n & Hn)]; [exact Hnm|]. apply (Hnp _ Hn). }
+  intros q Hq'. destruct (Hq q Hq') as [Hw Hr]. split; [exact Hw|].
+  intros n gl Hn. destruct (Hr n gl Hn) as [Hc Hin]. split; [exact Hc|].
+  unfold ReqEmbed.names in Hin. apply in_map_iff in Hin. destruct Hin as ([n' q'] & E & Hin).
+  cbn in E. subst n'. destruct (Hl _ Hin) as (rpath & gl' & qpath & Hload).
+  exists q', rpath, gl', qpath. split; assumption.
+Qed.
+
+(* errors, stated directly for the main program *)
+Lemma build_fails_or_ok fuel mp mc :
+  (exists e, build_lua fuel mp mc = Err e) \/ exists r pk, build_lua fuel mp mc = Ok (r, pk).
+Proof. destruct (build_lua fuel mp mc) as [[r pk]|e]; [right; eauto | left; eauto]. Qed.
+
+Lemma build_bad_arguments fuel mp mc m e :
+  parse_lines (file_lines mc) = Ok m -> snd (walk m) = Some e ->
+  exists e', build_lua fuel mp mc = Err e'.
+Proof.
+  intros Hm Hw. destruct (build_fails_or_ok fuel mp mc) as [H|(r & pk & H)]; [exact H|].
+  destruct (build_no_errors _ _ _ _ _ H) as (m' & Hm' & Hall). rewrite Hm in Hm'. injection Hm' as <-.
+  destruct (Hall m (or_introl eq_refl)) as [Hn _]. congruence.
+Qed.
+
+Lemma build_bad_name fuel mp mc m n gl e :
+  parse_lines (file_lines mc) = Ok m -> In (n, gl) (fst (walk m)) -> check_name n = Err e ->
+  exists e', build_lua fuel mp mc = Err e'.
+Proof.
+  intros Hm Hin Hc. destruct (build_fails_or_ok fuel mp mc) as [H|(r & pk & H)]; [exact H|].
+  destruct (build_no_errors _ _ _ _ _ H) as (m' & Hm' & Hall). rewrite Hm in Hm'. injection Hm' as <-.
+  destruct (Hall m (or_introl eq_refl)) as [_ Hr]. destruct (Hr _ _ Hin) as [Hc' _]. congruence.
+Qed.
+
+Lemma build_missing_file fuel mp mc m n gl :
+  parse_lines (file_lines mc) = Ok m -> In (n, gl) (fst (walk m)) ->
+  (forall rpath, find rpath n = None) ->
+  exists e', build_lua fuel mp mc = Err e'.
+Proof.
+  intros Hm Hin Hf. destruct (build_fails_or_ok fuel mp mc) as [H|(r & pk & H)]; [exact H|].
+  destruct (build_no_errors _ _ _ _ _ H) as (m' & Hm' & Hall). rewrite Hm in Hm'. injection Hm' as <-.
+  destruct (Hall m (or_introl eq_refl)) as [_ Hr].
+  destruct (Hr _ _ Hin) as [_ (q' & rpath & gl' & qpath & _ & Hl)].
+  unfold ReqEmbed.load in Hl. rewrite Hf in Hl. discriminate.
+Qed.
+
+(* termination: with a universe U of require strings, |U| + 1 levels of recursion are enough, in
+   the sense that no larger fuel changes the result (so a result Err OutOfFuel can then only come
+   from the abstract lexer / parser / walker, never from the search) *)
+Lemma build_fuel (U : list bytes) fuel fuel' mp mc :
+  (forall rpath n gl qpath q, load rpath n gl = Ok (qpath, q) -> incl (req_names q) U) ->
+  (forall m, parse_lines (file_lines mc) = Ok m -> incl (req_names m) U) ->
+  (length U < fuel)%nat -> (fuel <= fuel')%nat ->
+  build_lua fuel' mp mc = build_lua fuel mp mc.
+Proof.
+  intros HU Hm Hlen Hle. unfold ReqEmbed.build_lua.
+  destruct (parse_lines (file_lines mc)) as [m|e] eqn:E; [|reflexivity]. cbn [bind].
+  rewrite (eval_fuel U HU fuel fuel' m mp []); auto.
+  - constructor.
+  - intros x [].
+  - cbn. lia.
+Qed.
+
+(* ---------- the bytes of the result, for a lexer whose echo is faithful ---------- *)
+Section Bytes.
+Hypothesis echo_faithful : forall ls q, parse_lines ls = Ok q -> concat (echo q) = concat ls.
+Hypothesis file_lines_concat : forall c, concat (file_lines c) = c.
+
+Lemma concat_flat_map {A B} (f : A -> list (list B)) l :
+  concat (flat_map f l) = concat (map (fun x => concat (f x)) l).
+Proof. induction l as [|x l IH]; [reflexivity|]. cbn. rewrite concat_app, IH. reflexivity. Qed.
+
+Lemma build_code_bytes fuel mp mc out :
+  build_code fuel mp mc = Ok out ->
+  exists r pk tail, build_lua fuel mp mc = Ok (r, pk) /\ (tail = [] \/ tail = [10]) /\
+    out = match pk with
+          | [] => mc
+          | _ => concat preamble_package ++ concat (map (fun e => concat (block e)) pk)
+                 ++ concat preamble_require ++ mc
+          end ++ tail.
+Proof.
+  unfold ReqEmbed.build_code. intros H.
+  destruct (build_lua fuel mp mc) as [[r pk]|e] eqn:Hb; [|discriminate]. cbn [bind] in H.
+  unfold ReqEmbed.lua_section in H.
+  destruct (parse_lines (echo r)) as [r2|e]; [|discriminate]. cbn [bind] in H. injection H as <-.
+  destruct (build_structure _ _ _ _ _ Hb) as (m & Hm & He & Hs).
+  pose proof (echo_faithful _ _ Hm) as Em. rewrite file_lines_concat in Em.
+  exists r, pk, (if ends_with_nl (last (echo r) []) then [] else [10]).
+  split; [reflexivity|]. split; [destruct (ends_with_nl _); auto|].
+  f_equal. destruct pk as [|e0 pk0].
+  - subst r. exact Em.
+  - rewrite (echo_faithful _ _ Hs). rewrite !concat_app. f_equal. f_equal; [apply concat_flat_map | f_equal; exact Em].
+Qed.
+
+(* a package required with {use_game_loop=true} is embedded byte for byte *)
+Lemma block_of_unstripped rpath n qpath q :
+  load rpath n true = Ok (qpath, q) ->
+  exists content, find rpath n = Some (qpath, content) /\ concat (echo q) = content.
+Proof.
+  unfold ReqEmbed.load. destruct (find rpath n) as [[path content]|]; [|discriminate].
+  destruct (parse_lines (file_lines content)) as [q0|e] eqn:Hq; [|discriminate]. cbn [bind].
+  intros H. injection H as <- <-. exists content. split; [reflexivity|].
+  rewrite (echo_faithful _ _ Hq). apply file_lines_concat.
+Qed.
+End Bytes.
 End EmbedProofs.
